@@ -663,6 +663,11 @@ func sameAddr(a, b ssa.Value) bool {
 
 // runEffects enumerates and classifies every write in the module functions reachable from roots.
 func runEffects(c *Ctx, rule string, roots map[*ssa.Function]bool, pkgs map[string]bool, cut map[*ssa.Function]bool, consequence string) (int, int) {
+	return runEffectsFiltered(c, rule, roots, pkgs, cut, consequence, nil)
+}
+
+// runEffectsFiltered: as runEffects; writes for which skip returns true are not obligations.
+func runEffectsFiltered(c *Ctx, rule string, roots map[*ssa.Function]bool, pkgs map[string]bool, cut map[*ssa.Function]bool, consequence string, skip func(effWrite) (bool, string)) (int, int) {
 	keep := func(f *ssa.Function) bool {
 		pk := fnPkg(f)
 		return pk != nil && strings.HasPrefix(pk.Path(), modPath) && pkgs[shortPkg(pk.Path())] && !cut[f]
@@ -692,11 +697,23 @@ func runEffects(c *Ctx, rule string, roots map[*ssa.Function]bool, pkgs map[stri
 		name := FuncName(fn)
 		c.Fn(name)
 		for _, w := range eng.Writes(fn) {
+			accepted := ""
+			if skip != nil {
+				drop, why := skip(w)
+				if drop {
+					continue
+				}
+				accepted = why
+			}
 			nWrites++
 			c.Sites++
 			key := fmt.Sprintf("%s:%s[%s]", name, w.kind, w.target)
 			if w.fresh {
 				c.OK(rule, key, w.pos, "")
+				continue
+			}
+			if accepted != "" {
+				c.OK(rule, key, w.pos, accepted)
 				continue
 			}
 			if why, transient := effTransient(w); transient {
